@@ -121,4 +121,26 @@ theorem fdaeLoopK_eq (t0 tend h uround sa : ℚ) (fuel : Nat) : ∀ k : Nat,
       · simp [h1, h1s, hk, h2]
       · simp [h1, h1s, hk, h2, ih']
 
+/-- in exact arithmetic the grid `t0 + k·dt` the code computes now is the accumulated grid of `gridLoop` -/
+theorem gridLoopK_eq (t0 tend dt : ℚ) (fuel : Nat) : ∀ k : Nat,
+    gridLoopK ratO t0 tend dt fuel k (t0 + (k : ℚ) * dt) = gridLoop ratO tend dt fuel (t0 + (k : ℚ) * dt) := by
+  induction fuel with
+  | zero => intro k; simp [gridLoopK, gridLoop]
+  | succ n ih =>
+    intro k
+    have hadd : ∀ a b : ℚ, ratO.add a b = a + b := fun _ _ => rfl
+    have hmul : ∀ a b : ℚ, ratO.mul a b = a * b := fun _ _ => rfl
+    have hnext : t0 + ((k + 1 : ℕ) : ℚ) * dt = t0 + (k : ℚ) * dt + dt := by push_cast; ring
+    have ih' := ih (k + 1)
+    rw [hnext] at ih'
+    simp only [gridLoopK, gridLoop, hadd, hmul, ratO_ofNat]
+    split
+    · rw [hnext, ih']
+    · rfl
+
+theorem fixedGridK_eq (t0 tend dt : ℚ) : fixedGridK ratO t0 tend dt = fixedGrid ratO t0 tend dt := by
+  have key := gridLoopK_eq t0 tend dt (ratO.trunc (ratO.div (ratO.sub tend t0) dt) + 100) 0
+  simp only [Nat.cast_zero, zero_mul, add_zero] at key
+  simp only [fixedGridK, fixedGrid, key]
+
 end Solverz
